@@ -127,3 +127,53 @@ pub fn run_program_rep(user_text: &str, cycles: u32, mem: &[(u64, u8)], extra_fi
 pub fn run_program(user_text: &str, cycles: u32, mem: &[(u64, u8)], extra_fields: &str) -> ProgOutcome {
     run_program_rep(user_text, cycles, mem, extra_fields, 1)
 }
+
+/// run the program with `RunningProgram::run` under a timeout and describe the final report
+pub fn run_to_end(user_text: &str, timeout: u32, mem: &[(u64, u8)], extra_fields: &str) -> ProgOutcome {
+    let full = format!("{}{}", hk::y86_preamble(), user_text);
+    let sexp = match catch_unwind(|| hk::parse_statements(&full)) { Ok(Ok(s)) => Some(s), _ => None };
+    let contents = FileContents::new_from_data(hk::y86_preamble(), user_text, "t.hcl");
+    let result = catch_unwind(AssertUnwindSafe(|| {
+        match parse_y86_hcl(&contents) {
+            Err(e) => format!("rej {}", diag_string(&hk::error_summary(&e))),
+            Ok(program) => {
+                let mut rp = RunningProgram::new_y86(program);
+                rp.verif_set_memory(mem);
+                let mut opts = hclrs::RunOptions::default();
+                opts.set_quiet();
+                opts.set_timeout(timeout);
+                rp.set_options(opts);
+                let mut sink = std::io::sink();
+                match rp.run(&mut sink) {
+                    Err(e) => format!("run error={}", diag_string(&hk::error_summary(&e))),
+                    Ok(()) => {
+                        let dump = rp.dump_y86_str();
+                        let first = dump.lines().next().unwrap_or("");
+                        let banner = if first.contains("halted in state") { String::from("halted") }
+                            else if first.contains("timed out after") {
+                                let n: String = first.split("timed out after").nth(1).unwrap_or("").trim().chars().take_while(|c| c.is_ascii_digit()).collect();
+                                format!("timedout:{}", n)
+                            } else if first.contains("error caused in state") { String::from("error") }
+                            else { String::from("between") };
+                        let mut cyclesrun = String::from("-");
+                        let mut code = String::from("-");
+                        for l in dump.lines() {
+                            if let Some(r) = l.strip_prefix("Cycles run: ") { cyclesrun = r.trim().to_string(); }
+                            if let Some(r) = l.strip_prefix("Error code: ") { code = r.trim().chars().take_while(|c| c.is_ascii_digit()).collect(); }
+                        }
+                        format!("run cycles={} banner={} cyclesrun={} errorcode={}", rp.cycle(), banner, cyclesrun, code)
+                    }
+                }
+            }
+        }
+    }));
+    let result = match result { Ok(r) => r, Err(_) => String::from("PANIC") };
+    let accepted = result.starts_with("run");
+    let request = sexp.map(|s| {
+        let mut memf = String::from("(mem");
+        for (a, b) in mem { write!(memf, " ({} {})", a, b).unwrap(); }
+        memf.push(')');
+        format!("(run {} {} (timeout {}) {} {} (stmts {}))", flags_sexp(), cls_sexp(user_text), timeout, memf, extra_fields, s)
+    });
+    ProgOutcome { request, result, accepted }
+}
